@@ -375,7 +375,7 @@ def check(ck):
 
     # ---- C09.8 worker accounting (shared with C10.7 / C10.7b) ------------------------------------------------------------
     from rules import c10, common
-    common.import_rules(ck, c10, {"C10.7": "C09.8", "C10.7b": "C09.8", "C10.1": "C09.8", "C10.5": "C09.9"})
+    common.import_rules(ck, c10, {"C10.7": "C09.8", "C10.7b": "C09.8", "C10.1": "C09.8", "C10.5": "C09.9", "C10.4": "C09.8"})
     ck.floor("C09.8", 8)
     ck.floor("C09.9", 8)
 
